@@ -145,7 +145,11 @@ DelClause(c) ==
         sc(f, p) == c.base.frames[f].sc[p]
     IN IF c.base.raised # "" \/ c.red.raised # "" THEN "ok"
        ELSE IF up = {} THEN "ok"
-       ELSE IF Len(r.pairs) + Len(r.fn) < Len(b.pairs) + Len(b.fn) THEN "recall_up_frame_without_predictions_not_counted"
+       ELSE IF Len(r.pairs) + Len(r.fn) < Len(b.pairs) + Len(b.fn) THEN
+            \* the known finding needs a ground-truth frame WITHOUT a prediction frame in the reduced labels; losing instances
+            \* although every such frame still has its (possibly empty) prediction frame is something else
+            (IF \E f \in DOMAIN c.red.frames : c.red.frames[f].ng > 0 /\ ~c.red.frames[f].haspr
+             THEN "recall_up_frame_without_predictions_not_counted" ELSE "recall_up_ground_truth_instances_lost")
        ELSE IF \E j \in up : \E x \in DOMAIN b.pairs : \E y \in DOMAIN r.pairs :
                  /\ b.pairs[x].f = r.pairs[y].f /\ b.pairs[x].g = r.pairs[y].g
                  /\ b.pairs[x].p # c.keep[r.pairs[y].f][r.pairs[y].p]
